@@ -100,7 +100,13 @@ type tstate struct {
 
 var names = []string{"a0", "other", "third/name"}
 
+var nHangs int
+
 func scenario(kind string, fixed []int, kills []int, nth int) {
+	if nHangs >= 4 {
+		out.Note("skipped-after-hangs")
+		return // the code under test hangs widely: keep the run bounded
+	}
 	dir, err := os.MkdirTemp(root, "c")
 	if err != nil {
 		panic(err)
@@ -199,6 +205,7 @@ func scenario(kind string, fixed []int, kills []int, nth int) {
 		}
 		if budget == 0 {
 			status = "hang"
+			nHangs++
 			break
 		}
 		budget--
